@@ -462,7 +462,14 @@ def grey_thresholds(rep, fns):
             continue
         sig = f["full"].split("default_color_converter_impl")[1]
         fwd = sig.replace(" ", "").startswith("<boost::mp11::mp_list<boost::gil::red_t")
-        for x, _ in R.find(f["body"], lambda x: x.get("k") == "Binary" and x.get("op") == "<"):
+        # the saturation of the forward conversion is the local that is stored into get_color(dst, saturation_t()) (role, not name)
+        g = R.canonize(f)
+        sat = None
+        for k, x, _ in R.effects(g["body"]):
+            m = re.fullmatch(r"\(get_color\(\$1,saturation_t\{\}\) = (%\d+)\)", k)
+            if m:
+                sat = m.group(1)
+        for x, _ in R.find(g["body"], lambda x: x.get("k") == "Binary" and x.get("op") == "<"):
             lk, r = R.key(x["l"]), R.strip(x["r"])
             val = r.get("v") if r.get("k") in ("Float", "Int") else r.get("const")
             if val is None:
@@ -471,7 +478,7 @@ def grey_thresholds(rep, fns):
                 val = float(val)
             except ValueError:
                 continue
-            if fwd and lk in ("saturation", "saturation.operator float()"):
+            if fwd and sat is not None and lk in (sat, sat + ".operator float()"):
                 tf, wf = val, "%s:%s" % (C.repo_rel(f["file"]), x.get("line"))
             if not fwd and "saturation_t" in lk and "abs" in lk:
                 tb, wb = val, "%s:%s" % (C.repo_rel(f["file"]), x.get("line"))
